@@ -88,12 +88,29 @@ def d18(a, s):
     return len(s) <= 2 and any(set(s) <= set(b) and len(b) >= len(s) + 2 for b in a.blockers())
 
 
+def minimal_nonfaces(a, vs):
+    import itertools
+    out = []
+    for k in range(3, len(vs) + 1):
+        for t in itertools.combinations(vs, k):
+            f = frozenset(t)
+            if f not in a.c and all(frozenset(t[:i] + t[i + 1:]) in a.c for i in range(k)): out.append(t)
+    return out
+
+
 def gen_case(rng, maxlen=24):
     a = Abs(); lines = []
     for _ in range(rng.randrange(3, 7)): lines.append('addv'); apply(a, 'addv')
     for _ in range(rng.randrange(3, maxlen)):
         r = rng.random(); vs = sorted({v for s in a.c if len(s) == 1 for v in s})
-        if r < 0.3 and len(vs) >= 2: x, y = rng.sample(vs, 2); l = 'adde %d %d' % (x, y)
+        blockers = [b for b in minimal_nonfaces(a, vs) if len(b) >= 3] if r < 0.12 else []
+        if blockers:
+            # add_simplex of a simplex that properly contains a blocker (the blocker goes away, its other cofaces have to be blocked instead)
+            b = rng.choice(blockers); rest = [v for v in vs if v not in b]
+            sv = sorted(set(b) | set(rng.sample(rest, min(len(rest), rng.choice([1, 1, 2])))))
+            if frozenset(sv) in a.c or len(sv) > 5: continue
+            l = 'adds ' + ' '.join(map(str, sv))
+        elif r < 0.3 and len(vs) >= 2: x, y = rng.sample(vs, 2); l = 'adde %d %d' % (x, y)
         elif r < 0.5 and len(vs) >= 3:
             sv = sorted(rng.sample(vs, rng.randrange(3, min(len(vs), 5) + 1)))
             if frozenset(sv) in a.c: continue      # add_simplex asserts that the simplex is new
@@ -116,7 +133,7 @@ def gen_case(rng, maxlen=24):
 
 
 def run(ctx):
-    ctx.rule = ('random edit histories on 3-6 vertices: add_edge (30%), add_simplex of 3-5 vertices (20%), remove_star of a simplex of any dimension (20%, except the configuration of the known finding), '
+    ctx.rule = ('random edit histories on 3-6 vertices: add_edge (30%), add_simplex of 3-5 vertices (20%), add_simplex of a proper superset of a current blocker (up to 12%), remove_star of a simplex of any dimension (20%, except the configuration of the known finding), '
                 'link_condition + contract_edge of an existing edge in either direction (20%), add_vertex; after every edit `contains` of every vertex subset and the blocker set; '
                 'non-trivial = at least one star removal or performed contraction and at least one blocker at some point; distinct by text')
     vlib.lean_stage(ctx, MODULE, THEOREMS)
